@@ -1,5 +1,6 @@
 import Nsq.Model.Line
 import Nsq.Model.LookupSync
+import Nsq.Model.LookupPeer
 /-! Driver for engine E6 (C16): replays the harness scripts through `Nsq.Model.LookupSync.step`
 (the model is the tree WITH fixes/F3_lookup_peer_negative_size.patch). -/
 open Nsq Nsq.Line Nsq.Model.LookupSync
@@ -58,7 +59,7 @@ def createTopic (d : DS) (t : String) : DS :=
   if (findRef d t "").isSome then d else
   let d1 := drainBag 8 (stepD d (.createTopic t))
   -- GetTopic: blocking query of the lookupds for channels to pre-create (only the real one keeps keys)
-  let pre := precreate [ some ((d.rKnown.filter (fun k => k.1 == t)).map (·.2)) ]
+  let pre := precreate [ ⟨true, some ((d.rKnown.filter (fun k => k.1 == t)).map (·.2))⟩ ]
   pre.foldl (fun acc c => createChan acc t c) d1
 
 def ticks (d : DS) : DS :=
@@ -132,8 +133,53 @@ def stepLine (d : DS) (line : String) : DS × String :=
     -- one word per queried lookupd: `fail`, `-` (answered, knows nothing) or a comma separated channel list
     let parse (w : String) : Option (List String) :=
       if w == "fail" then none else if w == "-" then some [] else some (w.splitOn ",")
-    let pre := precreate (answers.map parse)
+    let pre := precreate (answers.map (fun w => ⟨true, parse w⟩))
     (d, showSet (pre.map (fun c => (c, ""))))
+  | "fine" :: args =>
+    -- the real lookupPeer.Command driven one interaction at a time: objs=<nsqd's objects> cmd=<nil|ping|reg:t/c|unreg:t/c>
+    -- st=<disc|conn> sess=<none|{regs the lookupd holds}> net=<outcome bits of the interactions, in order>
+    let get (k : String) : Option String :=
+      (args.find? (fun a => a.startsWith (k ++ "="))).map (fun a => (a.drop (k.length + 1)).toString)
+    let parseKey (w : String) : Key := match w.splitOn "/" with | [t, c] => (t, c) | _ => (w, "")
+    let parseSet (w : String) : List Key :=
+      let inner := ((w.replace "{" "").replace "}" "")
+      if inner == "-" || inner == "" then [] else (inner.splitOn ",").map parseKey
+    match get "objs", get "cmd", get "st", get "sess", get "net" with
+    | some o, some c, some st, some se, some nt =>
+      let objs : List Ref := (parseSet o).map (fun k => ⟨k.1, k.2, 0⟩)
+      let cb := callbackCmds objs []
+      let cmd : Option (Option (List Key → List Key)) :=
+        if c == "nil" then some none else if c == "ping" then some (some id)
+        else match c.splitOn ":" with
+          | ["reg", k] => some (some (register (parseKey k).1 (parseKey k).2))
+          | ["unreg", k] => some (some (unregister (parseKey k).1 (parseKey k).2))
+          | _ => none
+      match cmd with
+      | none => (d, "bad-op")
+      | some cmd =>
+        let pst := if st == "conn" then PState.connected else PState.disconnected
+        let sess : Session := if se == "none" then none else some (parseSet se)
+        let net := nt.toList.map (· == '1')
+        let res := fineCommand cb cmd pst sess net
+        (d, (if res.1 == .connected then "conn" else "disc") ++ " " ++
+          (match res.2 with | none => "none" | some r => showSet r))
+    | _, _, _, _, _ => (d, "bad-op")
+  | "prex" :: answers =>
+    -- one word per CONFIGURED lookupd: `id:<ans>` (an IDENTIFY to it has succeeded) or `unid:<ans>`; <ans> = `fail`,
+    -- `none` (answered, knows nothing) or a comma separated list of hex-encoded channel names (`-` = the empty name)
+    let name (h : String) : Option String := (hexBytes h).bind (fun b => String.fromUTF8? (ByteArray.mk b.toArray))
+    let parseAns (w : String) : Option (Option (List String)) :=
+      if w == "fail" then some none else if w == "none" then some (some [])
+      else ((w.splitOn ",").mapM name).map some
+    let parse (w : String) : Option Lookupd :=
+      match w.splitOn ":" with
+      | ["id", a] => (parseAns a).map (fun x => ⟨true, x⟩)
+      | ["unid", a] => (parseAns a).map (fun x => ⟨false, x⟩)
+      | _ => none
+    match answers.mapM parse with
+    | none => (d, "bad-op")
+    | some ls =>
+      (d, "{" ++ ",".intercalate (sortStrs ((precreate ls).map (fun c => Nsq.Line.hex c.toUTF8.toList))) ++ "}")
   | _ => (d, "bad-op")
 
 partial def loop (h : IO.FS.Stream) (out : IO.FS.Stream) (d : DS) : IO Unit := do
